@@ -195,6 +195,16 @@ theorem append_interrupted_then_retry (n : Nat) (l : List MsEntry) (tail : List 
   have := (file_append_refines _ e hwf he hl).1
   rw [this, abs_canon n l _ hok]
 
+/-- **`chgstatus` interrupted, at the level of the file**: whatever the number `k` of in-place stores
+    performed before the kill, the index words and the data bytes are untouched and every metadata
+    word is the one before the command or the one after it.  (With several identifiers the words may
+    be a MIX of old and new: the open finding `chg_multi_not_atomic`; with one store at most the file
+    is wholly old or wholly new, `chg_single_atomic`.) -/
+theorem chg_interrupted_file (f : File) (st : Nat) (ids : List Nat) (k : Nat) :
+    (fileChgPrefix f st ids k).index = f.index ∧ (fileChgPrefix f st ids k).data = f.data ∧
+    OldOrNew (fileChgPrefix f st ids k).mwords f.mwords (fileChg f st ids).1.mwords :=
+  ⟨rfl, rfl, chgScanK_oldOrNew st f.mwords k ids.eraseDups⟩
+
 end File
 
 end Moc.C16
